@@ -1,7 +1,7 @@
 #!/bin/bash
 # Mechanical behaviour-preserving rewrites (tools/mech_refactor.py) of a scratch copy of HEAD's pymablock, one mode at a time; every
 # quick check runs on the rewritten copy.  A VIOLATION is a false alarm.  usage: run_mech.sh [mode ...]
-modes=${@:-none mirror comp2loop kwargs demorgan unelse ifexp2stmt}
+modes=${@:-none mirror comp2loop kwargs demorgan unelse ifexp2stmt negcmp unchain rettemp unwalrus dictlit invertif tuplesplit}
 cd /verif
 for m in $modes; do
   d=$(mktemp -d /tmp/sv-mech-XXXXXX)
